@@ -670,7 +670,31 @@ pub fn gen_pkgs(rng: &mut Rng, opts: &LibOpts, names: &mut Names) -> Vec<Pkg> {
                     i.funcs.push(gen_func(rng, &scope, n, 1, names));
                 }
             }
+            // sometimes a third release on the same track: chains of three compatible versions
+            let third = if rng.chance(1, 3) {
+                let later2 = match later {
+                    "1.1.0" => "1.2.0",
+                    "0.2.4" => "0.2.7",
+                    "1.3.0" => "1.4.1",
+                    "1.10.0" => "1.11.0",
+                    "0.2.10" => "0.2.11",
+                    _ => "2.2.0",
+                };
+                let mut p3 = p2.clone();
+                p3.version = Some(later2.to_string());
+                for i in &mut p3.ifaces {
+                    for u in &mut i.uses {
+                        u.source_id = u.source_id.replace(&format!("@{later}"), &format!("@{later2}"));
+                    }
+                }
+                Some(p3)
+            } else {
+                None
+            };
             pkgs.push(p2);
+            if let Some(p3) = third {
+                pkgs.push(p3);
+            }
         }
         if rng.chance(1, 3) {
             // a different track with its own content
